@@ -47,6 +47,16 @@ def finish (conf : Confidence W) (mean span : W) : Outcome (Err W) (Interval W) 
   | .upper _ => liftI (Interval.new (sub mean span) (one : W))
   | .lower _ => liftI (Interval.new (zero : W) (add mean span))
 
+/-- the end of `ci_wilson`: the two bounds are proportions and are clamped into `[0, 1]`
+    (`(mean - span).max(0.)`, `(mean + span).min(1.)`) before the interval is built -/
+def finishWilson (conf : Confidence W) (mean span : W) : Outcome (Err W) (Interval W) :=
+  let low := fmax (sub mean span) (zero : W)
+  let high := fmin (add mean span) (one : W)
+  match conf with
+  | .twoSided _ => liftI (Interval.new low high)
+  | .upper _ => liftI (Interval.new low (one : W))
+  | .lower _ => liftI (Interval.new (zero : W) high)
+
 /-- the two Wilson numbers: `mean = (k + z²/2)/(n + z²)`, `span = z/(n + z²) · sqrt(k(n-k)/n + z²/4)` -/
 def wilsonCentre (n ns z : W) : W :=
   let zsq := mul z z
@@ -66,7 +76,7 @@ def ciWilson (crit : Crit W) (conf : Confidence W) (population successes : Nat) 
   if successes < 2 then .err (.tooFewSuccesses successes population ns) else
   if population - successes < 2 then .err (.tooFewFailures (population - successes) population nf) else
   (zValue crit conf).bind fun z =>
-  finish conf (wilsonCentre n ns z) (wilsonSpan n ns z)
+  finishWilson conf (wilsonCentre n ns z) (wilsonSpan n ns z)
 
 /-- `ci(confidence, population, successes)` -/
 def ci (crit : Crit W) (conf : Confidence W) (population successes : Nat) :
